@@ -148,6 +148,20 @@ func (g *qeGen) regexFrom(v string) string {
 	if len(runes) == 0 {
 		return vPick(r, []string{"", ".*", "^$", "a|b", "x?"})
 	}
+	if d := strings.IndexRune(v, '.'); d >= 0 && r.chance(1, 2) {
+		// an escaped dot, in a pattern which stays a regular expression: it must keep matching the dot only
+		upto := string([]rune(v)[:len([]rune(v[:d]))+1])
+		switch r.intn(4) {
+		case 0:
+			return "^" + qeRegexQuote(v) + "$"
+		case 1:
+			return "^" + qeRegexQuote(upto)
+		case 2:
+			return qeRegexQuote(v) + "|zzz"
+		default:
+			return qeRegexQuote(upto) + "[a-z0-9]*$"
+		}
+	}
 	lo, hi := r.intn(len(runes)), 0
 	hi = lo + 1 + r.intn(len(runes)-lo)
 	part := string(runes[lo:hi])
